@@ -64,6 +64,11 @@ impl Table {
             "L" => std::iter::repeat(if alt { 'm' } else { 'l' }).take(300).collect(),
             "e" => "".into(),
             "w" => "no-cache; x=1".into(),
+            // bytes a sanitiser or an escaping writer might treat specially: non-ASCII text; a tab, `%`, `=` and `"`; a line break followed by
+            // what would be a header line of its own (the name X-Injected is known to the oracle as a header nobody set)
+            "u" => if alt { "\u{e9}\u{2013}\u{fc}" } else { "\u{df}\u{20ac}\u{e4}" }.into(),
+            "t" => if alt { "a\tb%0Dc=\"d\"" } else { "q\t%zz=\"r\";s" }.into(),
+            "x" => if alt { "a\r\nX-Injected: 1" } else { "b\nX-Injected: 22" }.into(),
             _ => format!("tok-{t}"),
         }
     }
@@ -80,7 +85,7 @@ impl Table {
         }
         if raw.is_empty() { return json!(["e"]) }
         let toks: Vec<String> = raw.split(", ").map(|p| {
-            for t in ["p", "qq", "L", "e", "w"] { if self.val(t) == p { return t.to_string() } }
+            for t in ["p", "qq", "L", "e", "w", "u", "t", "x"] { if self.val(t) == p { return t.to_string() } }
             "?".to_string()
         }).collect();
         json!(toks)
@@ -89,6 +94,7 @@ impl Table {
         match wire { "Content-Type" => return "CT".into(), "Content-Length" => return "CL".into(), "Date" => return "DT".into(), "Set-Cookie" => return "SC".into(),
                      "Cache-Control" => return "CC".into(), "Transfer-Encoding" => return "TE".into(), _ => {} }
         for (tok, w) in names { if w == wire { return tok.clone() } }
+        if wire.eq_ignore_ascii_case("X-Injected") { return "INJ".into() }
         format!("?{wire}")
     }
 }
@@ -101,6 +107,8 @@ impl ohkami_lib::Stream for OneMessage {
 }
 
 fn status_of(t: &str) -> Status {
+    // "c<code>": any status of the enum, through its public conversion from the code
+    if let Some(code) = t.strip_prefix('c').and_then(|c| c.parse::<u16>().ok()) { return Status::from(code) }
     match t { "s204" => Status::NoContent, "s404" => Status::NotFound, "s304" => Status::NotModified, "s500" => Status::InternalServerError, "s201" => Status::Created,
               "s205" => Status::ResetContent, "s206" => Status::PartialContent, "s301" => Status::MovedPermanently, "s400" => Status::BadRequest, _ => Status::OK }
 }
@@ -201,14 +209,25 @@ pub fn run(scn: &Value) -> Value {
 
 /// random histories: 20-60 ops over all standard headers, several custom names, long and empty values
 pub fn gen(rng: &mut Rng, i: usize) -> Value {
-    let n = rng.range(8, 40);
-    let nstd = rng.range(2, 8); let stds: Vec<String> = (0..nstd).map(|_| format!("S{}", rng.below(STD.len()))).collect();
+    // one history in 40 is long: some hundreds of operations on a handful of headers (counters and tables that only wrap, fill up or
+    // degrade after hundreds of insertions and removals on ONE response)
+    let long = i % 40 == 13;
+    let n = if long { rng.range(280, 620) } else { rng.range(8, 40) };
+    let nstd = if long { rng.range(1, 3) } else { rng.range(2, 8) }; let stds: Vec<String> = (0..nstd).map(|_| format!("S{}", rng.below(STD.len()))).collect();
     let ncus = rng.range(1, 3); let cus: Vec<String> = (0..ncus).map(|_| format!("K{}", rng.below(CUSTOM.len()))).collect();
-    let vals = ["p", "qq", "L", "w", "e"];
+    let vals: &[&str] = if long { &["p", "qq", "w", "e"] } else if i % 5 == 2 { &["p", "qq", "L", "w", "e", "u", "t", "x", "u", "t", "x"] } else { &["p", "qq", "L", "w", "e"] };
+    const CODES: [u16; 57] = [200, 201, 202, 203, 204, 205, 206, 207, 208, 226, 300, 301, 302, 303, 307, 308, 400, 401, 403, 404, 405, 406, 407, 408, 409, 410, 411,
+        412, 413, 414, 415, 416, 417, 418, 421, 422, 423, 424, 426, 428, 429, 431, 451, 500, 501, 502, 503, 504, 505, 506, 507, 508, 510, 511, 200, 404, 204];
     let mut ops = vec![];
-    for _ in 0..n {
+    for k in 0..n {
+        // (long histories are mostly cycles "remove, set again" of one header: every cycle is a new entry of the append-only parts of the header map)
+        if long && k % 2 == 0 && k + 1 < n && rng.below(100) < 85 {
+            let h = stds[0].clone();
+            ops.push(json!(["rem", h])); ops.push(json!(["set", h, *rng.pick(vals)])); continue
+        }
         let r = rng.below(100);
-        let h = rng.pick(&stds).clone(); let c = rng.pick(&cus).clone(); let val = *rng.pick(&vals);
+        let h = rng.pick(&stds).clone(); let c = rng.pick(&cus).clone(); let val = *rng.pick(vals);
+        let r = if long && r >= 74 { r % 74 } else { r };      // (long histories: header operations only, the snapshots stay small)
         ops.push(match r {
             0..=21 => json!(["set", h, val]),
             22..=33 => json!(["app", h, if val == "e" { "p" } else { val }]),
@@ -221,7 +240,7 @@ pub fn gen(rng: &mut Rng, i: usize) -> Value {
                          json!(["body", k, if k == "json" && (l == "n0" || l == "n1") { "n3" } else { l }]) }
             90..=92 => json!(["drop"]),
             93..=94 => json!(["rebuild"]),
-            _ => json!(["status", *rng.pick(&["s200", "s204", "s404", "s201", "s500", "s205", "s206", "s301", "s400"])]),
+            _ => if rng.chance(1, 2) { json!(["status", format!("c{}", rng.pick(&CODES))]) } else { json!(["status", *rng.pick(&["s200", "s204", "s404", "s201", "s500", "s205", "s206", "s301", "s400"])]) },
         });
     }
     json!({"id": i, "ops": ops, "method": if rng.chance(1, 4) { "HEAD" } else { "GET" }, "seed": rng.next() % 100000})
